@@ -77,7 +77,7 @@ class P(vlib.Prop):
             "exporter (queue + batcher, bytes/items sizer, min_size at or below max_size) under a conservation oracle.  "
             "batcher: random histories of consume / timer flush / export result / "
             "shutdown on the real defaultBatcher with a scripted export function and a request type whose MergeSplit "
-            "results are filled to max_size or leave slack below it (as byte-based splitting does).  A case is non-trivial when more "
+            "results are filled to max_size or leave slack below it (as byte-based splitting does); plus 120 histories with only 1-2 flush workers (flush() blocks; operations ordered by their critical sections).  A case is non-trivial when more "
             "than one request is returned (MergeSplit) / a request is spread over several batches or a batch holds "
             "several requests (batcher); distinct = distinct case terms.")
     trusted_base = [
